@@ -299,3 +299,7 @@ mod tests {
         assert_eq!(pid.as_u64(), orphan_blob_id);
     }
 }
+
+#[cfg(kani)]
+#[path = "/verif/kani/storage/vacuum.rs"]
+mod kani_harness;
